@@ -1289,6 +1289,37 @@ func (pp *prProg) dischargeSwitchCall(pv *prover, s prSite, call *ast.CallExpr, 
 		}
 		return true
 	}
+	// switch arg { case K: … }: the matching outcome of a case value in the handled set
+	for _, b := range s.fn.G.Blocks {
+		if !b.Live {
+			continue
+		}
+		t, _, ok := an.CondEdges(b)
+		if !ok || b.Succs[0] == b.Succs[1] {
+			continue
+		}
+		cv, _ := b.Nodes[len(b.Nodes)-1].(ast.Expr)
+		cc, ok := pv.f.parent[cv].(*ast.CaseClause)
+		if !ok {
+			continue
+		}
+		body, ok := pv.f.parent[cc].(*ast.BlockStmt)
+		if !ok {
+			continue
+		}
+		sw, ok := pv.f.parent[body].(*ast.SwitchStmt)
+		if !ok || sw.Tag == nil {
+			continue
+		}
+		var p1 []prPath
+		if pv.exprKey(sw.Tag, &p1) != argKey {
+			continue
+		}
+		if tv, ok := info.Types[cv]; ok && tv.Value != nil && inSet(tv.Value) {
+			via = append(via, t)
+			eas = append(eas, edgeAt{t, an.Point{B: b, I: len(b.Nodes) - 1}})
+		}
+	}
 	for _, br := range prBranches(s.fn) {
 		if pv.inTaggedCase(br.cond) {
 			continue
